@@ -31,6 +31,7 @@ func init() {
 	families["kfl.frame"] = &Family{Gen: genKflEval, Run: runKflEval}
 	families["kfl.reuse"] = &Family{Gen: genKflEval, Run: runKflEval}
 	families["kfl.fuzz"] = &Family{Gen: genKflFuzz, Run: runKflFuzz}
+	families["kfl.redact"] = &Family{Gen: genKflRedact, Run: runKflEval}
 }
 
 // ---- dumping the real syntax tree in the generator's notation
@@ -190,6 +191,52 @@ func canonValue(v interface{}) sx.Sx {
 	return sx.A("unknown")
 }
 
+// deepCanon is canonValue looking through JSON documents nested in strings (plain or base64).
+func deepCanon(v interface{}) sx.Sx {
+	switch x := v.(type) {
+	case string:
+		asDoc := func(t string) (interface{}, bool) {
+			d, err := oj.ParseString(t)
+			if err != nil {
+				return nil, false
+			}
+			switch d.(type) {
+			case map[string]interface{}, []interface{}:
+				return d, true
+			}
+			return nil, false
+		}
+		if b, err := base64.StdEncoding.DecodeString(x); err == nil {
+			if d, ok := asDoc(string(b)); ok {
+				return sx.L(sx.A("b64doc"), deepCanon(d))
+			}
+			return sx.L(sx.A("s"), sx.S(x))
+		}
+		if d, ok := asDoc(x); ok {
+			return sx.L(sx.A("doc"), deepCanon(d))
+		}
+		return sx.L(sx.A("s"), sx.S(x))
+	case []interface{}:
+		out := []sx.Sx{sx.A("a")}
+		for _, e := range x {
+			out = append(out, deepCanon(e))
+		}
+		return sx.L(out...)
+	case map[string]interface{}:
+		keys := make([]string, 0, len(x))
+		for k := range x {
+			keys = append(keys, k)
+		}
+		sort.Strings(keys)
+		out := []sx.Sx{sx.A("o")}
+		for _, k := range keys {
+			out = append(out, sx.L(sx.S(k), deepCanon(x[k])))
+		}
+		return sx.L(out...)
+	}
+	return canonValue(v)
+}
+
 func runKflEval(p sx.Sx) sx.Sx {
 	query := p.List[0].Str()
 	wantAst := p.List[1].String()
@@ -217,13 +264,13 @@ func runKflEval(p sx.Sx) sx.Sx {
 	parsed, perr := oj.ParseString(newJson)
 	rec := sx.A("unparseable")
 	if perr == nil {
-		rec = canonValue(parsed)
+		rec = deepCanon(parsed)
 	}
 	// C18: the same prepared query again, on the same record
 	truth2, newJson2, _ := kfl.Eval(expr, record)
 	sameRec := false
 	if parsed2, err2 := oj.ParseString(newJson2); err2 == nil && perr == nil {
-		sameRec = canonValue(parsed2).String() == rec.String()
+		sameRec = deepCanon(parsed2).String() == rec.String()
 	}
 	// C18: concurrent evaluations of the shared prepared query
 	conc := true
@@ -243,7 +290,7 @@ func runKflEval(p sx.Sx) sx.Sx {
 			t3, j3, err3 := kfl.Eval(expr, record)
 			okc := err3 == nil && t3 == truth
 			if okc {
-				if p3, e3 := oj.ParseString(j3); e3 != nil || canonValue(p3).String() != rec.String() {
+				if p3, e3 := oj.ParseString(j3); e3 != nil || deepCanon(p3).String() != rec.String() {
 					okc = false
 				}
 			}
@@ -659,5 +706,63 @@ func genKflFuzz(r *Rand, tier string, emit func(sx.Sx)) {
 			}
 			emitQ(sb.String())
 		}
+	}
+}
+
+// Family kfl.redact (C15): records with unique sentinel secrets at their leaves and sets of
+// redaction paths. payload: (#query <ast> <record> (paths #p ...))
+func genKflRedact(r *Rand, tier string, emit func(sx.Sx)) {
+	count := 2500
+	if tier == "thorough" {
+		count = 50000
+	}
+	for i := 0; i < count; i++ {
+		n := 0
+		sent := func() sx.Sx { n++; return sStr(fmt.Sprintf("S%d", n)) }
+		// nested documents
+		inner := fmt.Sprintf(`{"z":"S9%d","w":[1,2]}`, i%7)
+		innerJ, _ := oj.Marshal(inner)
+		nested := fmt.Sprintf(`{"k":["S7%d","S8%d"],"m":{"x":"S6%d","y":5},"inner":%s}`, i%5, i%3, i%4, innerJ)
+		fields := []sx.Sx{}
+		add := func(k string, v sx.Sx) {
+			if r.Chance(88) {
+				fields = append(fields, sx.S(k), v)
+			}
+		}
+		add("a", sent())
+		add("b", sent())
+		add("c", sArr(sent(), sent(), sent()))
+		add("d", sObj(sx.S("e"), sent(), sx.S("n"), sInt(7), sx.S("x"), sent()))
+		add("arr", sArr(sObj(sx.S("x"), sent(), sx.S("y"), sent()), sObj(sx.S("x"), sent()), sObj(sx.S("y"), sent())))
+		add("deep", sObj(sx.S("p"), sObj(sx.S("x"), sent(), sx.S("q"), sObj(sx.S("x"), sent()))))
+		add("j", sStr(nested))
+		add("jb", sStr(base64.StdEncoding.EncodeToString([]byte(nested))))
+		add("num", sInt(42))
+		add("t", sx.A("true"))
+		record := sx.L(append([]sx.Sx{sx.A("o")}, pairs(fields)...)...)
+		pool := []string{"a", "b", "c", "c[0]", "c[2]", "c[5]", "c.*", "d", "d.e", "d.x", "d[\"e\"]", "d.zz", "zz", "zz.y", "arr[0].x", "arr[1].y",
+			"arr.*.x", "arr.*.y", "..x", "..e", "..zz", "deep.p.x", "deep.p.q.x", "deep..x", "deep.p", "num", "t", "a.b",
+			"j.json().m.x", "j.json().k[0]", "j.json().k.*", "j.json()..x", "j.json().m", "j.json().zz", "jb.json().m.x", "jb.json().k[1]", "jb.json()..x",
+			"j.json().inner.json().z", "jb.json().inner.json().z", "a.json().x", "num.json().x", "zz.json().x", "c.*.json().x"}
+		np := 1 + r.Intn(3)
+		paths := make([]string, np)
+		for k := range paths {
+			paths[k] = pool[r.Intn(len(pool))]
+		}
+		// query text and tree: redact("p1", "p2")
+		var args []string
+		params := []sx.Sx{sx.A("params")}
+		plist := []sx.Sx{sx.A("paths")}
+		for _, pth := range paths {
+			lit := strings.ReplaceAll(pth, "\"", "'") // keys quoted with ' inside the literal
+			args = append(args, "\""+lit+"\"")
+			a := wrapE(wrapL(wrapQ(wrapC(wrapU(node{"", sx.L(sx.A("str"), sx.S(lit))})))))
+			params = append(params, a.ast)
+			plist = append(plist, sx.S(lit))
+		}
+		q := "redact(" + strings.Join(args, ", ") + ")"
+		call := callNode("redact", sx.L(params...), sx.A("nosel"), q)
+		e := wrapE(wrapL(wrapQ(wrapC(wrapU(call)))))
+		emit(sx.L(sx.S(q), e.ast, record, sx.L(plist...)))
 	}
 }
